@@ -159,6 +159,43 @@ func H_X4_OracleSingleAssetExit() {
 	vrf.Assert(after.IsPositive(), "X4: an exit never takes a reserve to zero")
 }
 
+// X5 oracle pool, single-asset exit: what is paid out is worth, at the oracle prices, at most the exiting shares'
+// pro-rata claim on the pool's value, up to one base unit of the paid asset (the weight-breaking fee can only lower it;
+// an exit earns no weight-recovery bonus - nothing would fund it but the remaining liquidity providers):
+// paid*pOut*T <= shares*(L_atom*pAtom + L_usdc*pUsdc) + pOut*T
+//
+//vrf:summary github.com/elys-network/elys/x/amm/types.GetWeightBreakingFee => sumWBF
+//vrf:cover exit-ok
+//vrf:bound oracle pool, 2 assets, reserves / supply <= 1e30, oracle prices in [1e-9, 1e9], weight-breaking fee havocked in [0, 0.99]
+//vrf:assert-ms 120000
+func H_X5_OracleSingleAssetExit_Value() {
+	pool, la, lu, T := symPool(true)
+	s := vrf.Int("exitShares")
+	pa, pu := vrf.Dec("pAtom"), vrf.Dec("pUsdc")
+	vrf.Assume(s.IsPositive())
+	vrf.Assume(s.LT(T))
+	big := sdkmath.NewIntWithDecimal(1, 30)
+	for _, x := range []sdkmath.Int{la, lu, T} {
+		vrf.Assume(x.LTE(big))
+	}
+	for _, p := range []sdkmath.LegacyDec{pa, pu} {
+		vrf.Assume(p.GTE(sdkmath.LegacyNewDecWithPrec(1, 9)))
+		vrf.Assume(p.LTE(sdkmath.LegacyNewDec(1_000_000_000)))
+	}
+	ctx := vrf.NewCtx(vrf.NewWorld())
+	coins, err := pool.ExitPool(ctx, oracle{pa: pa, pu: pu}, noAcc{}, s, "uusdc", ammtypes.DefaultParams())
+	if err != nil {
+		return
+	}
+	vrf.Cover("exit-ok")
+	paid := coins.AmountOf("uusdc")
+	vrf.Observe("paid", paid)
+	PA, PU := mant(pa), mant(pu)
+	lhs := paid.Mul(PU).Mul(T)
+	rhs := s.Mul(la.Mul(PA).Add(lu.Mul(PU))).Add(PU.Mul(T))
+	vrf.Assert(lhs.LTE(rhs), "X5: an oracle single-asset exit pays at most the exiting shares' pro-rata claim at oracle prices (+ one base unit)")
+}
+
 // ---- J2: single-asset join of a constant-product pool ----
 
 var (
